@@ -34,6 +34,7 @@ type Options struct {
 	keepSMT   bool
 	solvers   []string
 	wantModel bool
+	noRetry   map[string]bool // obligations recorded as known findings: expected to stay undischarged, not worth a retry
 }
 
 func specMentions(fs *FuncSpec, sf *SpecFile, p string) bool {
@@ -382,7 +383,7 @@ func runAll(ld *Loaded, sf *SpecFile, opt *Options, only string) []*FuncResult {
 			for _, o := range fr.Obls {
 				if o.Check && !o.IsCover {
 					again = append(again, o)
-					if o.Result != "unsat" && o.Result != "sat" {
+					if o.Result != "unsat" && o.Result != "sat" && !opt.noRetry[o.Name] {
 						undecided = true
 					}
 				}
@@ -668,9 +669,15 @@ func checkProperty(opt *Options, start time.Time) int {
 		fmt.Printf("ERROR: contracts file: %v\n", err)
 		return 2
 	}
+	known := loadKnown(opt.verifDir)
+	opt.noRetry = map[string]bool{}
+	for _, k := range known {
+		if k.Status == "known" {
+			opt.noRetry[k.Obligation] = true
+		}
+	}
 	results := runAll(ld, sf, opt, "")
 	structural := runStructural(ld, sf, opt.prop)
-	known := loadKnown(opt.verifDir)
 	total, discharged := 0, 0
 	var failed []*Obl
 	var errors []string
